@@ -1,6 +1,6 @@
 // ---- shared by U-RECON and U-RECONPLAN: error type, output writer model, R8 epilogue helper -----------------------------
 // ---- stubs for dependencies (network, cache, tokio, OS files are outside reach) ---------------------------------------
-pub enum CasClientError { Other(String), InvalidRange, InvalidArguments, IOError }
+pub enum CasClientError { Other(String), InvalidRange, InvalidArguments, IOError, FileNotFound(MerkleHash) }
 pub type Result<T> = std::result::Result<T, CasClientError>;
 #[verifier::external_body] pub fn vx_abort() ensures false { panic!() }
 // a writer obtained from `OutputProvider::get_writer_at(start)` (a seeked file handle / buffer cursor)
